@@ -1777,6 +1777,10 @@ class Executor:
             if m is not None:
                 self.call_function(m, [base, val], {}, node, bound_cls=m[1], qual=f"{m[1]}.{attr}", kind="setter")
                 return
+        if not h.has(name) and self.prov.get(base.id, "FRESH") != "FRESH":
+            # a field that the contract's description of this (non-fresh) object does not know: the code has grown state the contract
+            # says nothing about - needs a contract update (undecided, demoted to the native enumerator), not a frame violation
+            raise Unsupported(f"store to attribute {name!r} of {h.cls}, which the contract's type does not declare (contract needs updating)")
         self.store(base, h.set(name, val), node, f"{attr} =", name)
 
     def setitem(self, base, idx, val, node):
